@@ -210,6 +210,32 @@ fn run(log: &mut Log, tag: &str, alpha: &[u8], sc: &Scheme, how: u64, cap: (usiz
     }
 }
 
+/// Input selection for the heavy class (not a verdict): the score of a few trivial alignments (the
+/// diagonal anchored at the start or at the end with the rest as one gap or one clip; everything clipped)
+/// in 64-bit arithmetic. It is a lower bound of the optimum, so inputs that pass are inside the region
+/// where the specification demands an exact answer (optimum above HEAVY_TRUST = -8e8); inputs whose
+/// optimum may lie in reach of the MIN_SCORE sentinel are not generated.
+fn heavy_lower_bound(sc: &Scheme, x: &[u8], y: &[u8]) -> i64 {
+    let idx = |b: u8| if b == b'A' { 0usize } else { 1 };
+    let (m, n) = (x.len(), y.len());
+    let k = m.min(n);
+    let r = (m.max(n) - k) as i64;
+    let gap = sc.go as i64 + r * sc.ge as i64;
+    let on = |c: i32| if c == MIN_SCORE { i64::MIN / 4 } else { c as i64 };
+    let [xp, xs, yp, ys] = sc.clip;
+    let rest = |pre: i32, suf: i32, at_end: bool| -> i64 {
+        if r == 0 { 0 } else { gap.max(on(if at_end { suf } else { pre })) }
+    };
+    let diag = |ox: usize, oy: usize| -> i64 { (0..k).map(|i| sc.table[idx(x[ox + i])][idx(y[oy + i])] as i64).sum() };
+    // diagonal anchored at the start, the rest of the longer sequence at the end
+    let a = diag(0, 0) + if m > n { rest(xp, xs, true) } else { rest(yp, ys, true) };
+    // diagonal anchored at the end, the rest in front
+    let b = diag(m - k, n - k) + if m > n { rest(xp, xs, false) } else { rest(yp, ys, false) };
+    // nothing aligned
+    let c = (if m > 0 { on(xp).max(on(xs)) } else { 0 }) + (if n > 0 { on(yp).max(on(ys)) } else { 0 });
+    a.max(b).max(c)
+}
+
 pub fn drive(log: &mut Log) {
     let seed = log.opts.seed;
     let mut case = 0u64;
@@ -632,6 +658,10 @@ pub fn drive(log: &mut Log) {
                     calls.push((0usize, y, x, None));
                 }
             }
+        }
+        calls.retain(|(_, x, y, _)| heavy_lower_bound(&sc, x, y) > -790_000_000);
+        if calls.is_empty() {
+            continue;
         }
         run(log, "hv", ac, &sc, case, (3, 3), &calls);
     }
